@@ -82,6 +82,12 @@ def run(tier, seed):
         elif sig.get('property') == 'C01' and sig.get('tree') == 'prepopulated-output':
             # what the receiver wrote does not tile the file exactly: bytes of an older, longer file remain behind the last chunk
             v.violation(dict(kind='offsets_written_do_not_tile_the_file_exactly', tree='prepopulated-output'), viol.get('replay'))
+    # the repair of a chunk that failed resume verification is framed with the geometry of that chunk: when it is the
+    # short last chunk, a sender that asks for a full chunk reads beyond the end of the file ("short read")
+    rt = vlib.run_vh_sharded(['resume-tamper', '-seed', str(seed), '-only', 'complete-torn-last', '-require-complete'], 4, timeout=1200)
+    for viol in rt['violations']:
+        if 'short read' in (viol['sig'].get('sendErr') or '') + (viol['sig'].get('recvErr') or ''):
+            v.violation(dict(kind='sender_reads_a_range_beyond_the_end_of_the_file', via='repair of the short last chunk'), viol.get('replay'))
     # the sender's side of the sum: source files that shrink / grow / vanish after the scan - the chunks framed must add up to
     # the announced size or the transfer must fail (the source cases of the C02 fault driver)
     sf = vlib.run_vh_sharded(['xfer-faults', '-seed', str(seed), '-stride', '4', '-only', 'source', '-budget', '60s'], 4, timeout=900)
